@@ -93,10 +93,12 @@ func c01Print(e *c01E, st c01Style) string {
 	case 'a':
 		return c01Tok(e.name, st) + "." + strings.Join(e.path, ".")
 	case 's':
+		// govaluate ends a string literal at either quote character; a backslash escapes anything
+		body := strings.NewReplacer("\\", "\\\\", "'", "\\'", "\"", "\\\"").Replace(e.s)
 		if st.sq {
-			return "'" + e.s + "'"
+			return "'" + body + "'"
 		}
-		return "\"" + e.s + "\""
+		return "\"" + body + "\""
 	case 'n':
 		return strconv.Itoa(e.n)
 	case 'b':
